@@ -678,7 +678,7 @@ func (fa *FnAnalysis) edgeTransfer(st *State, p, b *ssa.BasicBlock, predIdx int)
 	}
 	var carry []carried
 	if back {
-		loopVals, _ := fa.loopValues(b)
+		loopVals, loopBlocks := fa.loopValues(b)
 		for _, ic := range incs {
 			vt := fa.e.tt.mk(Term{K: "V", V: ic.phi})
 			for _, f := range ns.factList() {
@@ -770,7 +770,12 @@ func (fa *FnAnalysis) edgeTransfer(st *State, p, b *ssa.BasicBlock, predIdx int)
 										continue // already a shifted bound: do not build towers
 									}
 									seenU[U] = true
-									inv := len(U.eps) == 0
+									inv := true
+									for _, ep := range U.eps {
+										if fa.epochInLoop(ep, loopBlocks) {
+											inv = false
+										}
+									}
 									for _, mv := range U.vals {
 										if loopVals[mv] {
 											inv = false
@@ -829,6 +834,59 @@ func (fa *FnAnalysis) edgeTransfer(st *State, p, b *ssa.BasicBlock, predIdx int)
 							carry = append(carry, carried{ic.phi, Fact{aTR, fa.e.tt.mk(Term{K: "B", S: "<=", A: vt, B: bound}), true}})
 						}
 					}
+				}
+			}
+		}
+	}
+	// (c) counting: a slice phi that starts empty and grows by at most one element per iteration
+	// never holds more elements than the iterations made: len(s) <= i - i0 for a counter phi i
+	// starting at the constant i0.  Checked inductively at every back edge with the linear prover
+	// (in the peeled first iteration both phis are aliased to their entry values).
+	if back {
+		var pr *bndProver
+		for _, sp := range incs {
+			if _, isSl := sp.phi.Type().Underlying().(*types.Slice); !isSl {
+				continue
+			}
+			var sInit ssa.Value
+			nE := 0
+			for i, p2 := range b.Preds {
+				if !b.Dominates(p2) {
+					sInit = sp.phi.Edges[i]
+					nE++
+				}
+			}
+			if nE != 1 || !emptySliceValue(sInit) {
+				continue
+			}
+			for _, ip := range incs {
+				bt, isB := ip.phi.Type().Underlying().(*types.Basic)
+				if !isB || bt.Kind() != types.Int {
+					continue
+				}
+				var iInit ssa.Value
+				nI := 0
+				for i, p2 := range b.Preds {
+					if !b.Dominates(p2) {
+						iInit = ip.phi.Edges[i]
+						nI++
+					}
+				}
+				i0, isC := constIntOf(iInit)
+				if nI != 1 || !isC {
+					continue
+				}
+				if pr == nil {
+					pr = newProverE(fa.e, fa, ns)
+				}
+				kc := fa.e.tt.mk(Term{K: "C", S: fmt.Sprint(-i0), Const: constant.MakeInt64(-i0)})
+				lhs := fa.e.tt.mk(Term{K: "LEN", A: sp.term})
+				rhs := fa.e.tt.mk(Term{K: "B", S: "+", A: ip.term, B: kc})
+				if pr.le(lhs, rhs) {
+					svt := fa.e.tt.mk(Term{K: "V", V: sp.phi})
+					ivt := fa.e.tt.mk(Term{K: "V", V: ip.phi})
+					f := fa.e.tt.mk(Term{K: "B", S: "<=", A: fa.e.tt.mk(Term{K: "LEN", A: svt}), B: fa.e.tt.mk(Term{K: "B", S: "+", A: ivt, B: kc})})
+					carry = append(carry, carried{sp.phi, Fact{aTR, f, true}})
 				}
 			}
 		}
@@ -898,6 +956,41 @@ func (fa *FnAnalysis) edgeTransfer(st *State, p, b *ssa.BasicBlock, predIdx int)
 		ns.add(cf.fact.Kind, cf.fact.T, cf.fact.Val)
 	}
 	return ns
+}
+
+// epochInLoop: the memory epoch ep was started by an instruction of one of the blocks.
+func (fa *FnAnalysis) epochInLoop(ep int, blocks map[*ssa.BasicBlock]bool) bool {
+	var eb *ssa.BasicBlock
+	if ep > 0 {
+		eb = fa.e.epochBlock[ep]
+	} else if ep < -1 {
+		idx := -ep - 2
+		if idx < len(fa.fn.Blocks) {
+			eb = fa.fn.Blocks[idx]
+		}
+	}
+	return eb != nil && blocks[eb]
+}
+
+// emptySliceValue: a nil slice constant, make(T, 0) or arr[:0].
+func emptySliceValue(v ssa.Value) bool {
+	if v == nil {
+		return false
+	}
+	if isNilConst(v) {
+		return true
+	}
+	if m, ok := v.(*ssa.MakeSlice); ok {
+		if k, ok := constIntOf(m.Len); ok && k == 0 {
+			return true
+		}
+	}
+	if sl, ok := v.(*ssa.Slice); ok && sl.High != nil {
+		if k, ok := constIntOf(sl.High); ok && k == 0 {
+			return true
+		}
+	}
+	return false
 }
 
 // bump starts a new memory epoch for the given abstract locations ("*" or
